@@ -3,9 +3,9 @@
 #   demo passes on the clean tree, the patched tree builds, all 10 repo tests pass, demo fails with the patch.
 # On success the change is stored under /verif/seeded/<ID>-<i>/ with meta.json.
 set -u
-ID=$1; W=$2; I=$3
+ID=$1; W=$2; I=$3; DI=${4:-$3}   # DI: index under seeded/ (later rounds continue the numbering)
 O=$W/out
-LOG=/verif/build/seeded-$ID-$I.log
+LOG=/verif/build/seeded-$ID-$DI.log
 mkdir -p /verif/build
 exec > >(tee "$LOG") 2>&1
 git -C "$W" checkout -- . || exit 2
@@ -25,10 +25,10 @@ bash "$O/demo$I.sh" "$W" > "$LOG.demo_patched" 2>&1; RC_PATCHED=$?
 echo "patched demo rc=$RC_PATCHED"; tail -5 "$LOG.demo_patched"
 git -C "$W" checkout -- .
 if [ $RC_CLEAN -eq 0 ] && [ $RC_BUILD -eq 0 ] && [ $RC_CTEST -eq 0 ] && [ $RC_PATCHED -ne 0 ]; then
-  D=/verif/seeded/$ID-$I; mkdir -p "$D"
+  D=/verif/seeded/$ID-$DI; mkdir -p "$D"
   cp "$O/patch$I.diff" "$D/patch.diff"; cp "$O/demo$I.cpp" "$D/demo.cpp"; cp "$O/demo$I.sh" "$D/demo.sh"; cp "$O/notes$I.md" "$D/notes.md" 2>/dev/null
   sed -i "s/demo$I\.cpp/demo.cpp/g; s/demo$I/demo/g" "$D/demo.sh"
-  python3 - "$ID" "$I" "$D" <<PY
+  python3 - "$ID" "$DI" "$D" <<PY
 import json,sys
 pid,i,d=sys.argv[1:4]
 json.dump(dict(property=pid, index=int(i), origin="independent sub-agent given only the property text and a scratch worktree",
@@ -36,7 +36,7 @@ json.dump(dict(property=pid, index=int(i), origin="independent sub-agent given o
   ran=["bash demo.sh <clean worktree>", "git apply patch.diff", "cmake --build _build -j8", "ctest --test-dir _build -j8 --timeout 900", "bash demo.sh <patched worktree>"],
   needs="see notes.md", detected_by=None), open(d+"/meta.json","w"), indent=1)
 PY
-  echo "CONFIRMED $ID-$I"
+  echo "CONFIRMED $ID-$DI"
 else
-  echo "REJECTED $ID-$I (clean=$RC_CLEAN build=$RC_BUILD ctest=$RC_CTEST patched=$RC_PATCHED)"
+  echo "REJECTED $ID-$DI (clean=$RC_CLEAN build=$RC_BUILD ctest=$RC_CTEST patched=$RC_PATCHED)"
 fi
